@@ -1,12 +1,13 @@
-//! Correspondence harness `vh`.
+//! Shared part of the correspondence harness.
 //!
-//!   vh gen  <prop> <seed> <tier> <stats.json>   > requests   (one case per line)
-//!   vh exec <prop>                < requests    > replies    (real implementation, in-process)
+//! Every property is its own binary `vh-cNN` (harness/props/cNN) so that one property's
+//! harness failing to build against /repo never takes the others down:
 //!
-//! Requests are self-contained, so a replay file is just a request line.
-pub mod util;
+//!   vh-cNN gen  <seed> <tier> <stats.json>   > requests   (one self-contained case per line)
+//!   vh-cNN exec               < requests     > replies    (real implementation, in-process)
 pub mod rxgen;
 pub mod tgen;
+pub mod util;
 
 use std::io::{BufRead, Write};
 
@@ -25,26 +26,17 @@ impl GenCtx {
     }
 }
 
-type GenFn = fn(&mut GenCtx);
-type ExecFn = fn(&str) -> String;
+pub type GenFn = fn(&mut GenCtx);
+pub type ExecFn = fn(&str) -> String;
 
-include!(concat!(env!("OUT_DIR"), "/registry.rs"));
-
-fn main() {
+/// stateful executors keep their state in thread-locals / statics; requests are processed in order
+pub fn main_loop(g: GenFn, e: ExecFn) {
     let args: Vec<String> = std::env::args().collect();
     std::panic::set_hook(Box::new(|_| {}));
-    if args.len() < 3 {
-        eprintln!("usage: vh gen|exec <prop> ...");
-        std::process::exit(2);
-    }
-    let Some((g, e)) = table(&args[2]) else {
-        eprintln!("unknown property {}", args[2]);
-        std::process::exit(2);
-    };
-    match args[1].as_str() {
-        "gen" => {
-            let seed: u64 = args.get(3).and_then(|s| s.parse().ok()).unwrap_or(0);
-            let thorough = args.get(4).map(|s| s == "thorough").unwrap_or(false);
+    match args.get(1).map(|s| s.as_str()) {
+        Some("gen") => {
+            let seed: u64 = args.get(2).and_then(|s| s.parse().ok()).unwrap_or(0);
+            let thorough = args.get(3).map(|s| s == "thorough").unwrap_or(false);
             let mut ctx = GenCtx {
                 rng: util::Rng::new(seed),
                 thorough,
@@ -53,11 +45,11 @@ fn main() {
             };
             g(&mut ctx);
             ctx.out.flush().unwrap();
-            if let Some(p) = args.get(5) {
+            if let Some(p) = args.get(4) {
                 std::fs::write(p, ctx.stats.to_json()).unwrap();
             }
         }
-        "exec" => {
+        Some("exec") => {
             let stdin = std::io::stdin();
             let mut out = std::io::BufWriter::new(std::io::stdout());
             for line in stdin.lock().lines() {
@@ -71,7 +63,7 @@ fn main() {
             out.flush().unwrap();
         }
         _ => {
-            eprintln!("usage: vh gen|exec <prop> ...");
+            eprintln!("usage: vh-cNN gen <seed> <tier> <stats.json> | exec");
             std::process::exit(2);
         }
     }
